@@ -81,3 +81,14 @@ claim("C04",
       "trusts vf/ref/serial.py and the expectation rules in vf/props/c04.py; well-formed "
       "documents only (no raw < or & in text)",
       "DESIGN.md 3/C04")
+claim("C08",
+      "Hypothesis caption sets pushed through every ordered pair of the five formats and random "
+      "3-6 format chains with pycaption's own writer+reader per hop; round-trip / metamorphic "
+      "oracle (hop-by-hop comparison with the original, second pass vs first pass)",
+      "Generated-input search: 900 (thorough 40k) sets x all 25 ordered pairs x 2 passes, 2.5k "
+      "(100k) random chains of length 3-6, 1.5k (60k) two-language sets over DFXP/SAMI chains; "
+      "after every hop cue count, whitespace-normalised lines and floor(t/resolution) of "
+      "starts/ends are compared with the original set, and the second pass with the first.",
+      "durations >= 40 ms, sorted non-overlapping cues, one text node per line; last-cue ends "
+      "not compared once SAMI was on the chain",
+      "DESIGN.md 3/C08")
